@@ -26,6 +26,17 @@ def _single_return(f):
     return rets[0].value if len(rets) == 1 else None
 
 
+def partition_call_rule(chk, rid, drv):
+    """schedule_for partitions the task's parameter source with (task-local client index, the TASK's client count) — shared with C03 (slices must tile the corpus)."""
+    sfn = drv.func("schedule_for")
+    ta = params_of(sfn)[0]
+    pc_ = [n for n in walk_body(sfn) if isinstance(n, ast.Call) and last_attr(n.func) == "partition"]
+    d = local_defs(sfn)
+    ok = len(pc_) == 1 and len(pc_[0].args) == 2 and source.inline(pc_[0].args[0], d) == f"{ta}.client_index_in_task" and source.inline(pc_[0].args[1], d) == f"{ta}.task.clients"
+    got = f"partition({source.inline(pc_[0].args[0], d)}, {source.inline(pc_[0].args[1], d)})" if pc_ and len(pc_[0].args) == 2 else ""
+    chk.ob(rid, "parameter source partitioned by (task-local client index, the task's own client count)", ok, pc_[0] if pc_ else sfn, got, key="esrally/driver/driver.py:schedule_for:partition")
+
+
 def run(chk):
     repo = chk.repo
     drv, sch = repo.module(_D), repo.module(_S)
@@ -331,6 +342,9 @@ def run(chk):
         if not source.is_const(rr.value, 0):
             ok = rat_equal(source.inline_node(rr.value, rdefs), parse_expr("self.task_allocation.task.ramp_up_time_period * self.task_allocation.global_client_index / self.task_allocation.total_clients"))
     chk.ob("O5.4", "ramp-up wait == ramp * (i / total)", ok, rw, f"{[u(x.value) for x in rets]}")
+    from rules.C02 import allocation_totals
+
+    allocation_totals(chk, "O5.4", drv)
     ex = _prop(drv, drv.cls("AsyncExecutor"), "__call__")
     ge = cfg_of(ex)
     edefs = local_defs(ex)
@@ -360,54 +374,84 @@ def run(chk):
     if tt is None:
         raise AnchorMissing("Task.target_throughput")
     body = [s_ for s_ in tt.body if not isinstance(s_, ast.FunctionDef)]
+    # roles instead of names: an expression is "the interval" / "the throughput" when, with locals substituted, it reads the key target-interval / target-throughput
+    tdefs = local_defs(tt)
+    localfns = {f_.name: f_ for f_ in tt.body if isinstance(f_, ast.FunctionDef)}
+
+    def role_of(e):
+        t = source.inline(e, tdefs)
+        if "'target-interval'" in t and "'target-throughput'" not in t:
+            return "iv"
+        if "'target-throughput'" in t and "'target-interval'" not in t:
+            return "tv"
+        return None
+
     CASES = [  # (label, interval, throughput) abstract values: None | 'num' | 'nonnum' | 'str-ok' | 'str-bad' | 'other'
         ("neither given", None, None, ("none", None, None)),
         ("both given", "num", "num", ("raise", None, None)),
-        ("interval numeric", "num", None, ("value", "1 / float(target_interval)", "'ops/s'")),
+        ("interval numeric", "num", None, ("value", "1 / float(IV)", "'ops/s'")),
         ("interval not numeric", "nonnum", None, ("raise", None, None)),
-        ("throughput numeric", None, "num", ("value", "float(target_throughput)", "'ops/s'")),
-        ("throughput well-formed string", None, "str-ok", ("value", "float(matches.group('value'))", "matches.group('unit')")),
+        ("throughput numeric", None, "num", ("value", "float(TV)", "'ops/s'")),
+        ("throughput well-formed string", None, "str-ok", ("value", "float(MATCH.group('value'))", "MATCH.group('unit')")),
         ("throughput malformed string", None, "str-bad", ("raise", None, None)),
         ("throughput of another type", None, "other", ("raise", None, None)),
     ]
+    IVX, TVX = "self.params.get('target-interval')", "self.params.get('target-throughput')"
+
+    def canon(e):
+        """bound value with locals substituted, roles abstracted: IV / TV / MATCH."""
+        if e is None:
+            return None
+        t = source.inline(e, tdefs)
+        import re as _re
+        t = _re.sub(r"re\.(?:match|fullmatch)\([^()]*(?:\([^()]*\)[^()]*)*\)", "MATCH", t)
+        return t.replace(IVX, "IV").replace(TVX, "TV")
+
     for label, iv, tv, want in CASES:
-        def atom(n, env, iv=iv, tv=tv):
-            t = u(n)
-            tab = {
-                "target_interval is not None": iv is not None, "target_throughput is not None": tv is not None,
-                "target_interval is None": iv is None, "target_throughput is None": tv is None,
-                "target_interval": iv is not None, "target_throughput": tv is not None,
-                "numeric(target_interval)": iv == "num", "numeric(target_throughput)": tv == "num",
-                "isinstance(target_throughput, str)": tv in ("str-ok", "str-bad"), "matches": tv == "str-ok",
-                "value": True,
-            }
-            return tab.get(t)
+        val = {"iv": iv, "tv": tv}
+
+        def atom(n, env, val=val):
+            if isinstance(n, ast.Call) and dotted(n.func) in ("re.match", "re.fullmatch", "re.search") and len(n.args) == 2 and role_of(n.args[1]) == "tv":
+                return val["tv"] == "str-ok"
+            if isinstance(n, ast.Call) and isinstance(n.func, ast.Name) and n.func.id in localfns and len(n.args) == 1 and role_of(n.args[0]):
+                return val[role_of(n.args[0])] == "num"  # the local predicate `numeric`
+            if isinstance(n, ast.Call) and dotted(n.func) == "isinstance" and len(n.args) == 2 and role_of(n.args[0]) and u(n.args[1]) == "str":
+                return val[role_of(n.args[0])] in ("str-ok", "str-bad")
+            if isinstance(n, ast.Compare) and len(n.ops) == 1 and isinstance(n.ops[0], (ast.Is, ast.IsNot)) and source.is_const(n.comparators[0], None) and role_of(n.left):
+                isnone = val[role_of(n.left)] is None
+                return isnone if isinstance(n.ops[0], ast.Is) else not isnone
+            r = role_of(n)
+            if r and isinstance(n, (ast.Name, ast.Call)):
+                return val[r] is not None  # truthiness of the raw parameter
+            if isinstance(n, ast.Constant):
+                return bool(n.value)
+            if isinstance(n, (ast.BinOp, ast.Call)) and (("IV" in (canon(n) or "")) or ("TV" in (canon(n) or "")) or "MATCH" in (canon(n) or "")):
+                return True  # the computed value (non-zero for the representative inputs)
+            return None
 
         try:
             out = decide(body, atom, {})
         except (Unsupported, UnknownAtom) as e:
             chk.unknown("O5.6", f"target_throughput is not a decision over (interval kind, throughput kind): {e}", tt)
             break
-        b_ = getattr(out, "bindings", {})
         if want[0] == "raise":
             ok = out.kind == "raise"
             got = out.text()
         elif want[0] == "none":
-            # value stays None -> `if value:` must be evaluated with value None
-            def atom2(n, env):
-                return False if u(n) == "value" else atom(n, env)
-            out2 = decide(body, atom2, {})
-            ok = out2.kind == "return" and isinstance(out2.value, ast.Constant) and out2.value.value is None
-            got = out2.text()
+            ok = out.kind == "return" and isinstance(out.value, ast.Constant) and out.value.value is None
+            got = out.text()
         else:
-            ok = out.kind == "return" and isinstance(out.value, ast.Call) and last_attr(out.value.func) == "Throughput" and u(b_.get("value")) == want[1] and u(b_.get("unit")) == want[2]
-            got = f"{out.text()} with value={u(b_.get('value')) if b_.get('value') is not None else None} unit={u(b_.get('unit')) if b_.get('unit') is not None else None}"
+            a_ = [canon(x) for x in out.value.args] if out.kind == "return" and isinstance(out.value, ast.Call) and last_attr(out.value.func) == "Throughput" else []
+            b_ = getattr(out, "bindings", {})
+            a_ = [canon(b_[x.id]) if isinstance(x, ast.Name) and b_.get(x.id) is not None else canon(x) for x in out.value.args] if a_ else []
+            ok = a_ == [want[1], want[2]]
+            got = f"{out.text()} with (value, unit) = {a_}"
         chk.ob("O5.6", f"{label}", ok, tt, f"{got}; expected {want}", key=f"esrally/track/track.py:Task.target_throughput:{label}")
     pat = [n for n in TKc.body if isinstance(n, ast.Assign) and u(n.targets[0]) == "THROUGHPUT_PATTERN"]
     ok = bool(pat) and isinstance(pat[0].value, ast.Call) and isinstance(pat[0].value.args[0], ast.Constant) and "(?P<value>" in pat[0].value.args[0].value and "(?P<unit>" in pat[0].value.args[0].value and "/s" in pat[0].value.args[0].value
     chk.ob("O5.6", "string form parsed with named groups value / unit (unit ends in /s)", ok, pat[0] if pat else TKc, "")
-    pk = local_defs(tt)
-    ok = u(pk.get("target_throughput")) == "self.params.get('target-throughput')" and u(pk.get("target_interval")) == "self.params.get('target-interval')"
+    reads = {source.inline(v_, {}) for v_ in tdefs.values()}
+    ok = IVX in reads and TVX in reads
     chk.ob("O5.6", "read from the keys target-throughput / target-interval", ok, tt, "")
 
     # ---- O5.5 loop-control choice --------------------------------------------------------------------------------------------------------------------
@@ -496,9 +540,7 @@ def run(chk):
     ok = bool(shc) and len(shc[0].args) >= 3 and isinstance(shc[0].args[2], ast.Name) and shc[0].args[2].id in sdefs and all(isinstance(v, ast.Call) and last_attr(v.func) in ("IterationBased", "TimePeriodBased") for v in sdefs[shc[0].args[2].id])
     chk.ob("O5.5", "the chosen loop control is handed to the schedule handle", ok, shc[0] if shc else sfn, "")
     # params partitioned with the task-local client index
-    pc_ = [n for n in walk_body(sfn) if isinstance(n, ast.Call) and last_attr(n.func) == "partition"]
-    ok = bool(pc_) and source.inline(pc_[0].args[0], local_defs(sfn)) == "task_allocation.client_index_in_task" and u(pc_[0].args[1]) == "task.clients"
-    chk.ob("O5.5", "parameter source partitioned by the task-local client index", ok, pc_[0] if pc_ else sfn, "")
+    partition_call_rule(chk, "O5.5", drv)
 
 
 from sa.selftest import V  # noqa: E402
